@@ -4,7 +4,7 @@
 Then store it as /verif/seeded/<id>/{patch.diff,demo.rs,meta.json}.  usage: confirm_seed.py <dir with patch.diff demo.rs meta.json> ..."""
 import json, os, shutil, subprocess, sys
 def sh(cmd, cwd, t=1800):
-    e = dict(os.environ, CARGO_NET_OFFLINE="true", CARGO_TARGET_DIR=os.path.join(cwd, "target"))
+    e = dict(os.environ, RUST_BACKTRACE="0", CARGO_NET_OFFLINE="true", CARGO_TARGET_DIR=os.path.join(cwd, "target"))
     p = subprocess.run(cmd, shell=True, cwd=cwd, env=e, capture_output=True, text=True, timeout=t)
     return p.returncode, (p.stdout + p.stderr)[-3000:]
 def confirm(src):
